@@ -1,6 +1,6 @@
 \* C19 family A (quick): attribute representation kinds of x and y, aliases
 CONSTANTS XKinds = {"lit","pdep"}
-          YKinds = {"none","pdep"}
+          YKinds = {"pdep"}
           Aliases = {"none","pos","neg"}
           Delays = {"none"}
           Opts = {"base","aliases"}
